@@ -1,5 +1,7 @@
 import LoguruModel.Retention.Spec
 import LoguruModel.Retention.Dispatch
+import LoguruModel.Retention.Collect
+import LoguruModel.Retention.Created
 import LoguruModel.Driver
 open Py Py.Glob Retention Retention.Spec
 
@@ -34,6 +36,51 @@ def parseArg (kind arg : String) : Option RetArg :=
   else if kind == "n" then some RetArg.none
   else if kind == "o" then some RetArg.other
   else none
+
+/-- events of a directory history: `P name kind mtime` | `D name` | `R now` -/
+def parseEvs : Nat → List String → Option (List Ev)
+  | _, [] => some []
+  | 0, _ => none
+  | fuel + 1, "P" :: n :: f :: m :: rest =>
+    match decTok n, m.toInt?, parseEvs fuel rest with
+    | some n, some m, some es => some (.put { name := n, kind := kindOf f, mtime := m } :: es)
+    | _, _, _ => none
+  | fuel + 1, "D" :: n :: rest =>
+    match decTok n, parseEvs fuel rest with
+    | some n, some es => some (.del n :: es)
+    | _, _ => none
+  | fuel + 1, "R" :: now :: rest =>
+    match now.toInt?, parseEvs fuel rest with
+    | some now, some es => some (.pass now :: es)
+    | _, _ => none
+  | _, _ => none
+
+def encNames (l : List Str) : String := if l.isEmpty then "-" else ",".intercalate (l.map encTok)
+
+/-- run a history; per pass: what the policy removes (count / age) or is handed (callable) -/
+def runHist (ps : List Str) (cfg : Configured) : List Entry → List Ev → List String → List Entry × List String
+  | dir, [], acc => (dir, acc.reverse)
+  | dir, ev :: rest, acc =>
+    match cfg, ev with
+    | .policy pol, .pass now =>
+      runHist ps cfg (stepEv ps pol dir ev) rest (encNames ((passRemoves ps pol now dir).map (·.name)) :: acc)
+    | _, .pass _ =>
+      runHist ps cfg dir rest (encNames (handedNames id ps dir) :: acc)
+    | _, _ => runHist ps cfg (stepEv ps (.count 0) dir ev) rest acc
+
+/-- template tokens with fills: `L<hex>` literal character, `F<enc>` a field rendered to the text -/
+def parseFToks : List String → Option (List FTok)
+  | [] => some []
+  | t :: rest =>
+    match parseFToks rest with
+    | none => none
+    | some r =>
+      if t.startsWith "F" then (decTok (t.drop 1).toString).map (fun s => FTok.fill s :: r)
+      else if t.startsWith "L" then
+        match decTok (t.drop 1).toString with
+        | some [c] => some (FTok.lit c :: r)
+        | _ => none
+      else none
 
 def step (line : String) : String :=
   match line.splitOn " " with
@@ -109,6 +156,26 @@ def step (line : String) : String :=
       | .ok ps => "ok " ++ " ".intercalate ((selectLogs ps es).map (fun e => encTok e.name))
       | .error e => "err " ++ toString e
     | _, _ => "bad-op"
+  | "hist" :: path :: kind :: arg :: rest =>
+    match decTok path, parseArg kind arg, parseEvs (rest.length + 1) rest with
+    | some path, some a, some evs =>
+      match makeGlobPatterns path, makeRetention a with
+      | .ok ps, .ok cfg =>
+        let r := runHist ps cfg [] evs []
+        "ok " ++ "|".intercalate r.2 ++ " # " ++ encNames (r.1.map (·.name))
+      | .error e, _ => "err " ++ toString e
+      | _, .error e => "err " ++ toString e
+    | _, _, _ => "bad-op"
+  | "own" :: path :: date :: counter :: toks =>
+    -- the sink's own names: created path, its family membership, the rename target and its membership
+    match decTok path, decTok date, parseFToks toks with
+    | some path, some date, some v =>
+      let created := instantiate v
+      let cnt : Option Str := if counter == "-" then none else decTok counter
+      let ren := renameTarget created date cnt
+      let fam (n : Str) : String := match familyB path n with | some b => b2s b | none => "err"
+      encTok created ++ " " ++ fam created ++ " " ++ encTok ren ++ " " ++ fam ren
+    | _, _, _ => "bad-op"
   | ["term", fo, hr, hret, hc, sp, ir] =>
     let c : TermCfg := { fileOpen := fo == "1", hasRotation := hr == "1", hasRetention := hret == "1",
                          hasCompression := hc == "1", samePath := sp == "1" }
